@@ -17,7 +17,8 @@ def AttrSliced (s : Str) (ts : List Token) (g : SpanKey → Option Span) (env : 
     (n : Nat) (v : Str) : Prop :=
   ∃ pfx loc val wsp, Token.attribute pfx loc val wsp ∈ ts ∧
     SlicesTo s g ⟨q, .attributeName n⟩ (tokQName pfx.text loc.text) ∧
-    SlicesTo s g ⟨q, .attributeValue n⟩ val.text ∧
+    (∃ sp, g ⟨q, .attributeValue n⟩ = some sp ∧ sliceBytes s sp.start sp.stop = some val.text ∧
+      ∃ a b qc, (qc = '"' ∨ qc = '\'') ∧ s = a ++ qc :: (val.text ++ qc :: b) ∧ sp.start = strLen a + 1) ∧
     (∃ raw, parseAttribute val.text = .ok raw ∧
       v = if n == Env.xmlIdName then normalizeXmlId raw else raw) ∧
     pfx.text ∈ env.prefixes ∧
@@ -68,11 +69,16 @@ theorem attrFacts_sliced {s : Str} {ts : List Token} {g : SpanKey → Option Spa
     {q : Path} {n : Nat} {v : Str} (hl : LexFacts s ts) (h : AttrFacts ts g env scope q n v) :
     AttrSliced s ts g env scope q n v := by
   obtain ⟨p, l, val, sp, hm, h1, h2, ⟨raw, hr, hv⟩, hpm, ns, hn, hif⟩ := h
-  have hsp : NameSlice s p l := hl.spelled _ hm
+  obtain ⟨hsp, qc, pre, hq, htext, hstart⟩ : NameSlice s p l ∧ _ := hl.spelled _ hm
   have hsl := hl.slices _ hm
-  refine ⟨p, l, val, sp, hm, ⟨_, h1, hsp.sliceBytes⟩, slicesTo_span h2 hsl.2.2.1,
+  obtain ⟨a0, b0, hsrc, hst0⟩ := hsl.2.2.2
+  refine ⟨p, l, val, sp, hm, ⟨_, h1, hsp.sliceBytes⟩,
+    ⟨val.span, h2, slice_of_span hsl.2.2.1, a0 ++ pre, b0, qc, hq, ?_, ?_⟩,
     ⟨raw, parseContentGo_base hr, hv⟩, hpm, ns, hn, ?_⟩
-  simpa using hif
+  · rw [hsrc, htext]; simp
+  · show val.start = strLen (a0 ++ pre) + 1
+    rw [hstart, hst0, strLen_append]
+  · simpa using hif
 
 theorem nodeFacts_sliced {s : Str} {ts : List Token} {g : SpanKey → Option Span} {env : Env} {scope : NsStack}
     {q : Path} {v : Value} {ks : List Tree} (hl : LexFacts s ts) (h : NodeFacts ts g env scope q v ks) :
